@@ -71,10 +71,21 @@ inductive ICmp
   | ltNo | ltWith | ltWithI1 | leqWithI2 | eq | geqWithI1 | gtWithI2 | gtWith | gtNo
   deriving DecidableEq, Repr
 
-/-- `lp_interval_cmp_with_intersect` -/
-def cmpWithIntersect (I1 I2 : VI) : ICmp × Option VI :=
-  let cu := cmpUpper I1 I2
-  let cl := cmpLower I1 I2
+/-- last block of `lp_interval_cmp_with_intersect`: I1 starts and ends before I2 -/
+def cwiLt (I1 I2 : VI) : ICmp × Option VI :=
+  if EP.cmp I1.upper I2.lower = 0 ∧ (I1.bOpen = true ∨ I2.aOpen = true) then (.ltNo, none)
+  else if EP.cmp I1.upper I2.lower = 0 then (.ltWith, some (point I2.a))
+  else if EP.cmp I1.upper I2.lower < 0 then (.ltNo, none)
+  else (.ltWith, some (construct I2.lower I2.aOpen I1.upper I1.bOpen))
+
+/-- last block, mirrored: I1 starts and ends after I2 -/
+def cwiGt (I1 I2 : VI) : ICmp × Option VI :=
+  if EP.cmp I1.lower I2.upper = 0 ∧ (I1.aOpen = true ∨ I2.bOpen = true) then (.gtNo, none)
+  else if EP.cmp I1.lower I2.upper = 0 then (.gtWith, some (point I1.a))
+  else if EP.cmp I1.lower I2.upper < 0 then (.gtWith, some (construct I1.lower I1.aOpen I2.upper I2.bOpen))
+  else (.gtNo, none)
+
+def cwiCore (cu cl : Int) (I1 I2 : VI) : ICmp × Option VI :=
   if cu = 0 ∧ cl = 0 then (.eq, some I1)
   else if cu < 0 ∧ cl > 0 then (.ltWithI1, some I1)
   else if cu > 0 ∧ cl < 0 then (.gtWithI2, some I2)
@@ -82,18 +93,11 @@ def cmpWithIntersect (I1 I2 : VI) : ICmp × Option VI :=
   else if cu = 0 ∧ cl < 0 then (.leqWithI2, some I2)
   else if cl = 0 ∧ cu > 0 then (.gtWithI2, some I2)
   else if cl = 0 ∧ cu < 0 then (.ltWithI1, some I1)
-  else if cu < 0 then
-    let c0 := EP.cmp I1.upper I2.lower
-    let c := if c0 = 0 ∧ (I1.bOpen ∨ I2.aOpen) then -1 else c0
-    if c = 0 then (.ltWith, some (point I2.a))
-    else if c < 0 then (.ltNo, none)
-    else (.ltWith, some (construct I2.lower I2.aOpen I1.upper I1.bOpen))
-  else
-    let c0 := EP.cmp I1.lower I2.upper
-    let c := if c0 = 0 ∧ (I1.aOpen ∨ I2.bOpen) then 1 else c0
-    if c = 0 then (.gtWith, some (point I1.a))
-    else if c < 0 then (.gtWith, some (construct I1.lower I1.aOpen I2.upper I2.bOpen))
-    else (.gtNo, none)
+  else if cu < 0 then cwiLt I1 I2
+  else cwiGt I1 I2
+
+/-- `lp_interval_cmp_with_intersect` -/
+def cmpWithIntersect (I1 I2 : VI) : ICmp × Option VI := cwiCore (cmpUpper I1 I2) (cmpLower I1 I2) I1 I2
 
 /-- `lp_interval_cmp_value`: 1 = value below, -1 = value above, 0 = inside -/
 def cmpValue (I : VI) (v : EP) : Int :=
